@@ -240,7 +240,10 @@ def items(tier, rng):
     for n in range(1, nmax_uf + 1):
         out.append({"name": "uf_base_%d" % n, "harness": "h_uf_base", "params": {"n": n}})
         for op in ("union", "find", "connected", "sizes", "components"):
-            out.append({"name": "uf_%s_%d" % (op, n), "harness": "h_uf", "params": {"n": n, "op": op}})
+            it = {"name": "uf_%s_%d" % (op, n), "harness": "h_uf", "params": {"n": n, "op": op}}
+            if n >= 4:
+                it["split"] = 6 if n == 4 else 9
+            out.append(it)
     for n in range(1, nmax_fw + 1):
         for kind in ("int", "real"):
             out.append({"name": "fw_base_%d%s" % (n, kind), "harness": "h_fw_base", "params": {"n": n, "kind": kind}})
